@@ -61,6 +61,34 @@ fn did_oracle(input: &str, d: &CoreDID) -> Option<String> {
     Ok(d2) if &d2 == d => {}
     _ => return Some("did-reparse:".into()),
   }
+  // every other view of the value is the same string / the same components
+  {
+    let views: [(&str, String); 8] = [
+      ("Debug", format!("{:?}", d)),
+      ("AsRef<str>", AsRef::<str>::as_ref(d).to_string()),
+      ("into_string", d.clone().into_string()),
+      ("Into<String>", String::from(d.clone())),
+      ("to_url", d.to_url().to_string()),
+      ("into_url", d.clone().into_url().to_string()),
+      ("DIDUrl::from", DIDUrl::from(d.clone()).to_string()),
+      ("scheme:authority", format!("{}:{}", d.scheme(), d.authority())),
+    ];
+    for (n, v) in views {
+      if v != input {
+        return Some(format!("did-not-verbatim:{} gives {:?}", n, v));
+      }
+    }
+    if d != input || *d != *input || identity_core::common::KeyComparable::key(d) != d {
+      return Some("did-not-verbatim:PartialEq<str> / key".into());
+    }
+    let u = d.to_url();
+    if u.did() != d || u.path().is_some() || u.query().is_some() || u.fragment().is_some() || !u.url().is_empty() {
+      return Some("did-carries-url-parts:to_url".into());
+    }
+    if CoreDID::valid_method_name(d.method()).is_err() || CoreDID::valid_method_id(d.method_id()).is_err() {
+      return Some("did-method-syntax:the library's own validators refuse a component of an accepted DID".into());
+    }
+  }
   match d.to_json().ok().and_then(|j| CoreDID::from_json(&j).ok()) {
     Some(d2) if &d2 == d => None,
     _ => Some("did-json-roundtrip:".into()),
@@ -102,6 +130,38 @@ fn url_oracle(u: &DIDUrl, what: &str) -> Option<String> {
   if let Some(f) = u.fragment() {
     if !w3c_chars(f, |c| is_pchar(c) || c == '/' || c == '?') {
       return Some(format!("url-fragment-syntax:{:?}", f));
+    }
+  }
+  {
+    // the relative part, and rebuilding / mapping the value from its parts
+    let r = u.url();
+    if r.path() != u.path() || r.query() != u.query() || r.fragment() != u.fragment() {
+      return Some(format!("url-components-do-not-recompose:{} url() components differ", what));
+    }
+    if format!("{}{}", u.did(), r) != s || format!("{:?}", u) != s || String::from(u.clone()) != s {
+      return Some(format!("url-components-do-not-recompose:{} did + url() / Debug / Into<String> differ from {:?}", what, s));
+    }
+    if r.is_empty() != (u.path().is_none() && u.query().is_none() && u.fragment().is_none()) {
+      return Some(format!("url-components-do-not-recompose:{} is_empty", what));
+    }
+    let rebuilt = DIDUrl::new(u.did().clone(), Some(r.clone()));
+    let mut reset = DIDUrl::new(u.did().clone(), None);
+    reset.set_url(r.clone());
+    let mapped = u.clone().map(|d| d);
+    let tmapped = u.clone().try_map(Ok::<CoreDID, ()>);
+    if &rebuilt != u || &reset != u || &mapped != u || tmapped.as_ref() != Ok(u) || rebuilt.to_string() != s || mapped.to_string() != s {
+      return Some(format!("url-components-do-not-recompose:{} new / set_url / map / try_map of the parts differ from the value", what));
+    }
+    if u.clone().try_map(|_| Err::<CoreDID, ()>(())).is_ok() {
+      return Some(format!("url-components-do-not-recompose:{} try_map ignores the error", what));
+    }
+    if AsRef::<CoreDID>::as_ref(u) != u.did() || identity_core::common::KeyComparable::key(u) != u {
+      return Some(format!("url-components-do-not-recompose:{} as_ref / key", what));
+    }
+    let n1 = u.query_pairs().count();
+    let n2 = r.query_pairs().count();
+    if n1 != n2 || (u.query().is_none() && n1 != 0) {
+      return Some(format!("url-components-do-not-recompose:{} query_pairs", what));
     }
   }
   let s2 = s.clone();
@@ -277,6 +337,18 @@ pub fn run(args: &[&str]) -> String {
         Ok(Err(_)) => "err".into(),
         Ok(Ok(v)) => {
           let f = url_oracle(&v, "join").or(if v.did() != u0.did() { Some("join-changed-did:".into()) } else { None });
+          // `DID::join` on a bare DID is `DIDUrl::join` on its URL
+          let f = f.or_else(|| {
+            if u0.url().is_empty() {
+              let g2 = arg(args[2]).unwrap_or_default();
+              match u0.did().clone().join(&g2) {
+                Ok(w) if w == v && w.to_string() == v.to_string() => None,
+                _ => Some("join-changed-did:DID::join differs from DIDUrl::join".into()),
+              }
+            } else {
+              None
+            }
+          });
           with(show_url(&v), f)
         }
       }
